@@ -105,9 +105,9 @@ var errFamilies = map[string][]string{
 
 // dropped-error exceptions: (function key, callee suffix) -> reason
 var errDropExceptions = map[string]string{
-	"RemoteHTTPIndex.StoreIndex$1$1|Index).WriteTo": "pipe-feeding goroutine: a failed encode closes the pipe early and surfaces as a short upload",
-	"S3IndexStore.StoreIndex$1|Index).WriteTo":      "pipe-feeding goroutine: a failed encode surfaces as a short upload",
-	"SFTPIndexStore.StoreIndex$1|Index).WriteTo":    "pipe-feeding goroutine: a failed encode surfaces as a short upload",
+	"RemoteHTTPIndex.StoreIndex$|Index).WriteTo": "pipe-feeding goroutine: a failed encode closes the pipe early and surfaces as a short upload",
+	"S3IndexStore.StoreIndex$|Index).WriteTo":    "pipe-feeding goroutine: a failed encode surfaces as a short upload",
+	"SFTPIndexStore.StoreIndex$|Index).WriteTo":  "pipe-feeding goroutine: a failed encode surfaces as a short upload",
 	"GCIndexStore.StoreIndex|Index).WriteTo":        "the writer's Close error reports the failed upload",
 	"cmd.runInfo|).HasChunk":                        "reporting command: an unreachable cache counts as 'not cached'; no property anchors it",
 }
@@ -157,7 +157,12 @@ func (c *Ctx) errorsNotDropped(prop string) {
 			if used {
 				return
 			}
-			if why, ok := errDropExceptions[fnKey(fn)+"|"+fam]; ok {
+			// exceptions are keyed by the enclosing top-level function ("F$" = any closure of F), not by closure index
+			exKey := fnKey(fn)
+			if i := strings.Index(exKey, "$"); i >= 0 {
+				exKey = exKey[:i+1]
+			}
+			if why, ok := errDropExceptions[exKey+"|"+fam]; ok {
 				c.info(key, ins.Pos(), "exception: %s", why)
 				return
 			}
